@@ -377,6 +377,10 @@ type Decoded struct {
 	Pointers []Pointer
 	// RROffsets[s][i] is the offset at which record i of section s (0=an) starts.
 	RROffsets [3][]int
+	// RDLenOffsets lists the offsets of the RDLENGTH fields of all parsed records; NameOffsets the
+	// offsets at which owner/question names start.
+	RDLenOffsets []int
+	NameOffsets  []int
 }
 
 // Clean reports whether the data is exactly a well-formed message.
@@ -443,15 +447,30 @@ func decodeName(b []byte, off int, ptrs *[]Pointer) (Name, int, error) {
 }
 
 func decodeRR(b []byte, off int, ptrs *[]Pointer) (RR, int, error) {
-	var r RR
-	var err error
+	r, end, _, err := decodeRR2(b, off, ptrs)
+	return r, end, err
+}
+
+func decodeRR2(b []byte, off int, ptrs *[]Pointer) (RR, int, int, error) {
+	r, end, rdl, err := decodeRR3(b, off, ptrs)
+	return r, end, rdl, err
+}
+
+func decodeRR3(b []byte, off int, ptrs *[]Pointer) (r RR, _ int, rdlenOff int, err error) {
 	r.Owner, off, err = decodeName(b, off, ptrs)
 	if err != nil {
-		return r, 0, err
+		return r, 0, 0, err
 	}
 	if off+10 > len(b) {
-		return r, 0, errShort
+		return r, 0, 0, errShort
 	}
+	rdlenOff = off + 8
+	rr, end, err := decodeRRBody(b, off, r, ptrs)
+	return rr, end, rdlenOff, err
+}
+
+func decodeRRBody(b []byte, off int, r RR, ptrs *[]Pointer) (RR, int, error) {
+	var err error
 	r.Type = binary.BigEndian.Uint16(b[off:])
 	r.Class = binary.BigEndian.Uint16(b[off+2:])
 	r.TTL = binary.BigEndian.Uint32(b[off+4:])
@@ -511,6 +530,7 @@ func Decode(b []byte) *Decoded {
 			d.Err = fmt.Errorf("question %d: %w", i, err)
 			return d
 		}
+		d.NameOffsets = append(d.NameOffsets, off)
 		if o+4 > len(b) {
 			d.Err = fmt.Errorf("question %d: %w", i, errShort)
 			return d
@@ -522,12 +542,14 @@ func Decode(b []byte) *Decoded {
 	secs := [3]*[]RR{&d.An, &d.Ns, &d.Ar}
 	for s := 0; s < 3; s++ {
 		for i := 0; i < d.Counts[s+1]; i++ {
-			r, o, err := decodeRR(b, off, &d.Pointers)
+			r, o, rdl, err := decodeRR2(b, off, &d.Pointers)
 			if err != nil {
 				d.Err = fmt.Errorf("section %d record %d at %d: %w", s, i, off, err)
 				return d
 			}
 			d.RROffsets[s] = append(d.RROffsets[s], off)
+			d.NameOffsets = append(d.NameOffsets, off)
+			d.RDLenOffsets = append(d.RDLenOffsets, rdl)
 			*secs[s] = append(*secs[s], r)
 			off = o
 			d.Present[s+1]++
